@@ -15,7 +15,17 @@ pub ghost struct Step {
 pub open spec fn state_after(st0: StoreV, steps: Seq<Step>) -> StoreV {
     if steps.len() == 0 { st0 } else { steps.last().after }
 }
-/// every step is a valid message carried out according to exec_post; the contract itself is never a party (A-SELF)
+/// A-SELF per request: the contract's own address does not send requests and is not configured as a fee account
+pub open spec fn self_free(msg: ExecuteMsg, sender: Addr, c: Seq<char>) -> bool {
+    &&& sender.s@ != c
+    &&& (match msg {
+            ExecuteMsg::ModifyContract { approvers, executors, ask_fee_rate, ask_fee_account, bid_fee_rate, bid_fee_account,
+                                         ask_required_attributes, bid_required_attributes } =>
+                (ask_fee_account is Some ==> ask_fee_account->0@ != c) && (bid_fee_account is Some ==> bid_fee_account->0@ != c),
+            _ => true,
+        })
+}
+/// every step is a valid message carried out according to exec_post
 pub open spec fn valid_trace(st0: StoreV, steps: Seq<Step>, c: Seq<char>) -> bool
     decreases steps.len()
 {
@@ -25,7 +35,76 @@ pub open spec fn valid_trace(st0: StoreV, steps: Seq<Step>, c: Seq<char>) -> boo
         &&& valid_trace(st0, steps.drop_last(), c)
         &&& exec_msg_valid(s.msg)
         &&& exec_post(prev, s.after, c, s.sender, s.funds, s.msg, s.msgs, s.attrs)
-        &&& s.sender.s@ != c && not_party(prev, c)
+        &&& self_free(s.msg, s.sender, c)
+    }
+}
+/// "the contract is not a party" is itself preserved by every step
+//@lemma props=C01
+pub proof fn lemma_not_party_step(st: StoreV, st2: StoreV, c: Seq<char>, sender: Addr, funds: Seq<Coin>, msg: ExecuteMsg,
+                                  msgs: Seq<Msg>, attrs: Seq<(Seq<char>, Seq<char>)>)
+    requires wf(st), not_party(st, c), self_free(msg, sender, c), exec_msg_valid(msg),
+             exec_post(st, st2, c, sender, funds, msg, msgs, attrs)
+    ensures not_party(st2, c)
+{
+    match msg {
+        ExecuteMsg::ApproveAsk { id, base, size } => {
+            let k = str_bytes(id@);
+            assert forall|k2: Seq<u8>| #[trigger] st2.asks.dom().contains(k2) implies st2.asks[k2].owner.s@ != c
+                && (is_ready(st2.asks[k2]) ==> ready_approver(st2.asks[k2]) != c) by {
+                if k2 != k { assert(st.asks.dom().contains(k2)); } else { assert(st.asks.dom().contains(k)); }
+            }
+        },
+        ExecuteMsg::CreateAsk { id, base, quote, price, size } => {
+            let k = str_bytes(id@);
+            assert forall|k2: Seq<u8>| #[trigger] st2.asks.dom().contains(k2) implies st2.asks[k2].owner.s@ != c
+                && (is_ready(st2.asks[k2]) ==> ready_approver(st2.asks[k2]) != c) by {
+                if k2 != k { assert(st.asks.dom().contains(k2)); }
+            }
+        },
+        ExecuteMsg::CreateBid { id, base, fee, price, quote, quote_size, size } => {
+            let k = str_bytes(id@);
+            assert forall|k2: Seq<u8>| #[trigger] st2.bids.dom().contains(k2) implies as_v3(st2.bids[k2]).owner.s@ != c by {
+                if k2 != k { assert(st.bids.dom().contains(k2)); }
+            }
+        },
+        ExecuteMsg::CancelAsk { id } => {
+            assert forall|k2: Seq<u8>| #[trigger] st2.asks.dom().contains(k2) implies st2.asks[k2].owner.s@ != c
+                && (is_ready(st2.asks[k2]) ==> ready_approver(st2.asks[k2]) != c) by { assert(st.asks.dom().contains(k2)); }
+        },
+        ExecuteMsg::ExpireAsk { id } => { lemma_not_party_ask(st, st2, c, str_bytes(id@)); },
+        ExecuteMsg::RejectAsk { id, size } => { lemma_not_party_ask(st, st2, c, str_bytes(id@)); },
+        ExecuteMsg::CancelBid { id } => { lemma_not_party_bid(st, st2, c, str_bytes(id@)); },
+        ExecuteMsg::ExpireBid { id } => { lemma_not_party_bid(st, st2, c, str_bytes(id@)); },
+        ExecuteMsg::RejectBid { id, size } => { lemma_not_party_bid(st, st2, c, str_bytes(id@)); },
+        ExecuteMsg::ExecuteMatch { ask_id, bid_id, price, size } => {
+            lemma_not_party_ask(st, st2, c, str_bytes(ask_id@));
+            lemma_not_party_bid(st, st2, c, str_bytes(bid_id@));
+        },
+        ExecuteMsg::ModifyContract { .. } => {},
+    }
+}
+/// an ask that is removed or reduced in place (same owner, same approver) keeps the book free of the contract address
+pub proof fn lemma_not_party_ask(st: StoreV, st2: StoreV, c: Seq<char>, k: Seq<u8>)
+    requires not_party(st, c), st.asks.dom().contains(k),
+             st2.asks =~= st.asks.remove(k) || (st2.asks.dom().contains(k) && st2.asks =~= st.asks.insert(k, st2.asks[k])
+                 && st2.asks[k].owner.s@ == st.asks[k].owner.s@
+                 && (is_ready(st2.asks[k]) ==> is_ready(st.asks[k]) && ready_approver(st2.asks[k]) == ready_approver(st.asks[k])))
+    ensures forall|k2: Seq<u8>| #[trigger] st2.asks.dom().contains(k2) ==> st2.asks[k2].owner.s@ != c
+                && (is_ready(st2.asks[k2]) ==> ready_approver(st2.asks[k2]) != c)
+{
+    assert forall|k2: Seq<u8>| #[trigger] st2.asks.dom().contains(k2) implies st2.asks[k2].owner.s@ != c
+        && (is_ready(st2.asks[k2]) ==> ready_approver(st2.asks[k2]) != c) by {
+        assert(st.asks.dom().contains(k2));
+    }
+}
+pub proof fn lemma_not_party_bid(st: StoreV, st2: StoreV, c: Seq<char>, k: Seq<u8>)
+    requires not_party(st, c), st.bids.dom().contains(k),
+             st2.bids =~= st.bids.remove(k) || (st2.bids.dom().contains(k) && st2.bids =~= st.bids.insert(k, st2.bids[k])
+                 && as_v3(st2.bids[k]).owner.s@ == as_v3(st.bids[k]).owner.s@)
+    ensures forall|k2: Seq<u8>| #[trigger] st2.bids.dom().contains(k2) ==> as_v3(st2.bids[k2]).owner.s@ != c
+{
+    assert forall|k2: Seq<u8>| #[trigger] st2.bids.dom().contains(k2) implies as_v3(st2.bids[k2]).owner.s@ != c by {
+        assert(st.bids.dom().contains(k2));
     }
 }
 /// what the trace added to the contract's holdings of denomination d (attached funds in, messages executed)
@@ -39,8 +118,8 @@ pub open spec fn holdings_after(steps: Seq<Step>, c: Seq<char>, d: Seq<char>) ->
 
 //@lemma props=C01,C06,C08,C09,C11
 pub proof fn lemma_history(st0: StoreV, steps: Seq<Step>, c: Seq<char>, d: Seq<char>)
-    requires wf(st0), valid_trace(st0, steps, c)
-    ensures wf(state_after(st0, steps)),
+    requires wf(st0), not_party(st0, c), valid_trace(st0, steps, c)
+    ensures wf(state_after(st0, steps)), not_party(state_after(st0, steps), c),
             holdings_after(steps, c, d) == owed_total(state_after(st0, steps), d) - owed_total(st0, d),
     decreases steps.len()
 {
@@ -50,6 +129,7 @@ pub proof fn lemma_history(st0: StoreV, steps: Seq<Step>, c: Seq<char>, d: Seq<c
         lemma_history(st0, init, c, d);
         let prev = state_after(st0, init);
         lemma_exec_preserves_wf(prev, s.after, c, s.sender, s.funds, s.msg, s.msgs, s.attrs);
+        lemma_not_party_step(prev, s.after, c, s.sender, s.funds, s.msg, s.msgs, s.attrs);
         lemma_C01_step(prev, s.after, c, s.sender, s.funds, s.msg, s.msgs, s.attrs, d);
     }
 }
@@ -57,7 +137,7 @@ pub proof fn lemma_history(st0: StoreV, steps: Seq<Step>, c: Seq<char>, d: Seq<c
 /// C01 for whole histories: from a freshly instantiated contract (well-formed, empty book, nothing held)
 //@lemma props=C01
 pub proof fn lemma_C01_history(st0: StoreV, steps: Seq<Step>, c: Seq<char>, d: Seq<char>)
-    requires wf(st0), st0.asks.dom() =~= Set::<Seq<u8>>::empty(), st0.bids.dom() =~= Set::<Seq<u8>>::empty(),
+    requires wf(st0), not_party(st0, c), st0.asks.dom() =~= Set::<Seq<u8>>::empty(), st0.bids.dom() =~= Set::<Seq<u8>>::empty(),
              valid_trace(st0, steps, c)
     ensures holdings_after(steps, c, d) == owed_total(state_after(st0, steps), d)
 {
